@@ -11,25 +11,25 @@ def go(test, q, t, **kw):
 
 
 CHECKS = {
-    "C01": {"level": E, "units": [go("TestC01", 8000, 400000)]},
+    "C01": {"level": E, "units": [go("TestC01", 8000, 100000)]},
     "C17": {"level": E, "units": [go("TestC17Single", 1000000, 16, netns=False), go("TestC17Pairs", 1000000, 8000000, netns=False)]},
     "C06": {"level": E, "units": [go("TestC06Exhaustive", 16, 16, netns=False), go("TestC06Seq", 160000, 3000000, netns=False),
                                   go("TestC06Conc", 3000, 60000, race=True, netns=False, confirm=False)], "replay_race": False},
     "C18": {"level": E, "units": [go("TestC18Samples", 1, 1, netns=False, shards={"quick": 1, "thorough": 1}), go("TestC18", 400000, 6000000, netns=False)]},
-    "C19": {"level": E, "units": [go("TestC19", 48000, 600000)]},
-    "C03": {"level": E, "agent_binary": True, "units": [go("TestC03", 2000, 60000), go("TestC03Restart", 192, 3000)]},
-    "C09": {"level": E, "units": [go("TestC09", 4000, 150000)]},
-    "C08": {"level": E, "units": [go("TestC08Parser", 200000, 8000000, netns=False), go("TestC08PDR", 4000, 150000), go("TestC08PFD", 1500, 60000)]},
+    "C19": {"level": E, "units": [go("TestC19", 48000, 3000000)]},
+    "C03": {"level": E, "agent_binary": True, "units": [go("TestC03", 2000, 60000), go("TestC03Restart", 192, 6000)]},
+    "C09": {"level": E, "units": [go("TestC09", 4000, 120000)]},
+    "C08": {"level": E, "units": [go("TestC08Parser", 200000, 8000000, netns=False), go("TestC08PDR", 4000, 100000), go("TestC08PFD", 1500, 40000)]},
     "C14": {"level": E, "units": [go("TestC14", 3200, 60000)]},
     "C13": {"level": E, "units": [go("TestC13", 1200, 20000), go("TestC13Unit", 640, 6000, netns=False)]},
     "C07": {"level": E, "units": [go("TestC07Gen", 50000, 2000000, netns=False), go("TestC07Conc", 600, 20000, race=True, netns=False, confirm=False), go("TestC07Wire", 2000, 30000)]},
     "C05": {"level": E, "units": [go("TestC05", 1600, 30000)]},
-    "C04": {"level": E, "agent_binary": True, "units": [go("TestC04", 4000, 60000), go("TestC04Restart", 192, 3000)]},
+    "C04": {"level": E, "agent_binary": True, "units": [go("TestC04", 4000, 120000), go("TestC04Restart", 192, 6000)]},
     "C16": {"level": E, "gen_binary": True, "units": [go("TestC16Constants", 1, 1, netns=False, shards={"quick": 1, "thorough": 1}), go("TestC16Gen", 960, 6000, netns=False), go("TestC16", 8000, 120000)]},
-    "C15": {"level": F, "units": [go("TestC15Enum", 16, 16), go("TestC15Multi", 2400, 30000)]},
+    "C15": {"level": F, "units": [go("TestC15Enum", 16, 16), go("TestC15Multi", 2400, 100000)]},
     "C20": {"level": E, "units": [{"kind": "py", "test": "c20", "argv": ["py/c20/test_c20.py"]}], "py_replay": ["py/c20/test_c20.py", "--replay"]},
     "C12": {"level": F, "units": [go("TestC12Enum", 16, 16), go("TestC12HB", 160, 5000), go("TestC12Setup", 240, 6000), go("TestC12Init", 96, 3000)]},
     "C10": {"level": E, "units": [go("TestC10", 320, 8000, race=True, confirm=False)], "replay_race": True},
-    "C11": {"level": E, "units": [go("TestC11", 320, 5000, race=True, confirm=False)], "replay_race": True},
+    "C11": {"level": E, "units": [go("TestC11", 320, 8000, race=True, confirm=False)], "replay_race": True},
     "C02": {"level": E, "units": [go("TestC02", 4800, 100000)]},
 }
